@@ -8,17 +8,17 @@ Definition L := order_ed25519.
 
 (** Scalar.SetBytesWithClamping: clear the low 3 bits, clear bit 255, set bit 254, then reduce mod L *)
 Definition clamp (b32 : list byte) : N :=
-  let v := le_dec b32 in ((v mod 2 ^ 254) / 8 * 8 + 2 ^ 254) mod L.
+  let v := le_val b32 in ((v mod 2 ^ 254) / 8 * 8 + 2 ^ 254) mod L.
 
 Definition ed_secret_scalar (seed : list byte) : N := clamp (firstn 32 (sha512 seed)).
 Definition ed_prefix (seed : list byte) : list byte := skipn 32 (sha512 seed).
 (** Scalar.SetUniformBytes of a SHA-512 digest *)
-Definition ed_nonce (prefix msg : list byte) : N := le_dec (sha512 (prefix ++ msg)) mod L.
-Definition ed_hram (R A msg : list byte) : N := le_dec (sha512 (R ++ A ++ msg)) mod L.
+Definition ed_nonce (prefix msg : list byte) : N := le_val (sha512 (prefix ++ msg)) mod L.
+Definition ed_hram (R A msg : list byte) : N := le_val (sha512 (R ++ A ++ msg)) mod L.
 Definition ed_S (k s r : N) : N := (k * s + r) mod L.               (* MultiplyAdd(k, s, r) *)
 (** signature = R || S for R = [nonce]B given as bytes *)
 Definition ed_signature (R A msg : list byte) (s nonce : N) : list byte :=
-  R ++ le_enc 32 (ed_S (ed_hram R A msg) s nonce).
+  R ++ le_bytes 32 (ed_S (ed_hram R A msg) s nonce).
 
 (** key-blinded signing (ed25519.blindKeySign): factor r, secret k*r, prefix = h[32:] || b[32:], public key [r]A *)
 Definition ed_blind_prefix (seed blind context : list byte) : list byte :=
@@ -32,4 +32,4 @@ Fixpoint le_bytes_leq (a b : list byte) : bool :=   (* lists given most signific
   | x :: a', y :: b' => if b2n y <? b2n x then false else if b2n x <? b2n y then true else le_bytes_leq a' b'
   | _, _ => true
   end.
-Definition is_reduced (s32 : list byte) : bool := le_bytes_leq (rev s32) (rev (le_enc 32 (L - 1))).
+Definition is_reduced (s32 : list byte) : bool := le_bytes_leq (rev s32) (rev (le_bytes 32 (L - 1))).
